@@ -59,13 +59,18 @@ type c30Case struct {
 		Rg    int64  `json:"rg"`
 		Off   int64  `json:"off"`
 		Usest bool   `json:"usest"`
+		St    int64  `json:"st"` // range query: step width (0 = instant query)
+		Ns    int64  `json:"ns"` // range query: number of steps
 	} `json:"q"`
-	Out struct {
-		Present bool   `json:"present"`
-		V       c30Val `json:"v"`
-	} `json:"out"`
+	Out  c30Out   `json:"out"`  // prediction at the first evaluation time
+	Outs []c30Out `json:"outs"` // prediction at every step
 	N    int  `json:"n"`
 	Stin bool `json:"stin"`
+}
+
+type c30Out struct {
+	Present bool   `json:"present"`
+	V       c30Val `json:"v"`
 }
 
 func c30Close(want, got float64) bool {
@@ -162,6 +167,8 @@ func TestVerifC30(t *testing.T) {
 		present int
 		stIn    int
 		sampled int
+
+		rangeSteps int
 	)
 	violation := func(sig, msg string, cs *c30Case, qs string) {
 		mu.Lock()
@@ -200,6 +207,83 @@ func TestVerifC30(t *testing.T) {
 		return fmt.Sprintf(`%s(m{id="%d"}[%dms]%s)`, fn, id, k*cs.Q.Rg, off)
 	}
 
+	// a range query: every step is compared with the prediction of the spec for that evaluation time
+	evalRange := func(ng *promql.Engine, qs string, cs *c30Case) (map[int64]float64, error) {
+		start, end := tm(cs.Q.E), tm(cs.Q.E+(cs.Q.Ns-1)*cs.Q.St)
+		qry, err := ng.NewRangeQuery(context.Background(), st, nil, qs, time.UnixMilli(start), time.UnixMilli(end), time.Duration(k*cs.Q.St)*time.Millisecond)
+		if err != nil {
+			return nil, fmt.Errorf("parse: %w", err)
+		}
+		defer qry.Close()
+		res := qry.Exec(context.Background())
+		mu.Lock()
+		nevals++
+		mu.Unlock()
+		if res.Err != nil {
+			return nil, res.Err
+		}
+		mat, ok := res.Value.(promql.Matrix)
+		if !ok {
+			return nil, fmt.Errorf("result type %T", res.Value)
+		}
+		if len(mat) > 1 {
+			return nil, fmt.Errorf("%d series in the result of a one-series query", len(mat))
+		}
+		pts := map[int64]float64{}
+		for _, sr := range mat {
+			if len(sr.Histograms) > 0 {
+				return nil, fmt.Errorf("histogram points in the result")
+			}
+			for _, p := range sr.Floats {
+				pts[p.T] = p.F
+			}
+		}
+		return pts, nil
+	}
+	checkRange := func(ng *promql.Engine, cs *c30Case, id int) {
+		qs := query(cs, cs.Q.Fn, id)
+		desc := fmt.Sprintf("range query %q from %d step %dms x%d", qs, tm(cs.Q.E), k*cs.Q.St, cs.Q.Ns)
+		pts, err := evalRange(ng, qs, cs)
+		if err != nil {
+			if strings.HasPrefix(err.Error(), "parse:") {
+				verifh.Infra(fmt.Sprintf("%s: %v", desc, err))
+			} else {
+				violation(cs.Q.Fn+":range:error", fmt.Sprintf("%s failed: %v", desc, err), cs, qs)
+			}
+			return
+		}
+		if int64(len(cs.Outs)) != cs.Q.Ns {
+			verifh.Infra("case carries the wrong number of step predictions")
+			return
+		}
+		npresent := 0
+		for j, o := range cs.Outs {
+			at := tm(cs.Q.E + int64(j)*cs.Q.St)
+			got, ok := pts[at]
+			want := o.V.f()
+			if cs.Q.Fn == "rate" || cs.Q.Fn == "irate" {
+				want = want * 1000 / float64(k)
+			}
+			switch {
+			case !o.Present && ok:
+				violation(cs.Q.Fn+":range:unexpected-output", fmt.Sprintf("%s: step %d (t=%d): reference has no output sample, got %v", desc, j, at, got), cs, qs)
+				return
+			case o.Present && !ok:
+				violation(cs.Q.Fn+":range:missing-output", fmt.Sprintf("%s: step %d (t=%d): reference %v, no sample returned", desc, j, at, want), cs, qs)
+				return
+			case o.Present && !c30Close(want, got):
+				violation(cs.Q.Fn+":range:value", fmt.Sprintf("%s: step %d (t=%d): got %v, reference %v (= %d/%d%s)", desc, j, at, got, want, o.V.N, o.V.D, o.V.T), cs, qs)
+				return
+			}
+			if o.Present {
+				npresent++
+			}
+		}
+		if len(pts) != npresent {
+			violation(cs.Q.Fn+":range:extra-steps", fmt.Sprintf("%s: %d samples returned, reference has %d", desc, len(pts), npresent), cs, qs)
+		}
+	}
+
 	work := make(chan int, 256)
 	var wg sync.WaitGroup
 	for w := 0; w < 8; w++ {
@@ -211,6 +295,14 @@ func TestVerifC30(t *testing.T) {
 				ng := engNoST
 				if cs.Q.Usest {
 					ng = engST
+				}
+				if cs.Q.St > 0 {
+					checkRange(ng, cs, caseID[i])
+					mu.Lock()
+					perFn[cs.Q.Fn+"[range]"]++
+					rangeSteps += int(cs.Q.Ns)
+					mu.Unlock()
+					continue
 				}
 				qs := query(cs, cs.Q.Fn, caseID[i])
 				vec, err := eval(ng, qs, tm(cs.Q.E))
@@ -289,7 +381,7 @@ func TestVerifC30(t *testing.T) {
 	sort.Strings(fns)
 	verifh.Stat(map[string]any{"c30_cases": len(cases), "c30_series": len(reps), "c30_samples_loaded": nsamples, "c30_evaluations": nevals,
 		"c30_with_output": present, "c30_start_timestamp_inside_window": stIn, "c30_per_function": strings.Join(fns, " "),
-		"c30_time_scale": k, "c30_time_base": base})
+		"c30_time_scale": k, "c30_time_base": base, "c30_range_query_steps": rangeSteps})
 	verifh.Done(len(cases))
 	if nviol > 0 {
 		t.Fail()
